@@ -205,3 +205,61 @@ func vfhC12RelationsHunt() {
 	vfAssert(vfAnd(vfOr(umn.X == mn.X, umn.X == omn.X), vfOr(umx.Y == mx.Y, umx.Y == omx.Y)), "and its ends are ends of the operands")
 	vfReach("end")
 }
+
+func init() {
+	vfHarnesses["C12_envelope_distance_values"] = vfhC12EnvelopeDistanceValues
+}
+
+// The value of Envelope.Distance on envelopes whose gaps form Pythagorean
+// triples (so the exact answer is a small integer), in all four diagonal
+// directions, for boxes, segments and points, in both argument orders; and
+// the value when only one axis separates them.
+func vfhC12EnvelopeDistanceValues() {
+	gaps := [][3]float64{{3, 4, 5}, {4, 3, 5}, {5, 12, 13}, {12, 5, 13}, {8, 15, 17}, {20, 21, 29}, {0, 7, 7}, {7, 0, 7}, {6, 6, 0}}
+	k := vfInt("gaps", 0, len(gaps)-1)
+	gx, gy, want := gaps[k][0], gaps[k][1], gaps[k][2]
+	if k == len(gaps)-1 {
+		want = 72 // checked squared: sqrt(72) is not an integer
+	}
+	sizes := []float64{0, 1, 2} // 0: degenerate
+	w, h := sizes[vfInt("width", 0, 2)], sizes[vfInt("height", 0, 2)]
+	e := newUncheckedEnvelope(XY{10, 20}, XY{10 + w, 20 + h})
+	var olo, ohi XY
+	left, below := vfBool("left"), vfBool("below")
+	if left {
+		ohi.X = 10 - gx
+		olo.X = ohi.X - 3
+	} else {
+		olo.X = 10 + w + gx
+		ohi.X = olo.X + 3
+	}
+	if below {
+		ohi.Y = 20 - gy
+		olo.Y = ohi.Y - 1
+	} else {
+		olo.Y = 20 + h + gy
+		ohi.Y = olo.Y + 1
+	}
+	if vfBool("point") {
+		if left {
+			olo.X = ohi.X
+		} else {
+			ohi.X = olo.X
+		}
+		if below {
+			olo.Y = ohi.Y
+		} else {
+			ohi.Y = olo.Y
+		}
+	}
+	o := newUncheckedEnvelope(olo, ohi)
+	d, ok := e.Distance(o)
+	d2, ok2 := o.Distance(e)
+	vfAssert(ok && ok2 && d == d2, "defined and symmetric")
+	if k == len(gaps)-1 {
+		vfAssert(d*d > want*(1-1e-12) && d*d < want*(1+1e-12), "equal gaps: the diagonal of the gap square")
+	} else {
+		vfAssert(d == want, "Distance is the Euclidean distance between the nearest corners / sides")
+	}
+	vfReach("end")
+}
